@@ -2516,10 +2516,17 @@ impl XmlElement {
             .find(|v| v.as_attribute().unwrap().borrow().local_name() == name)
             .cloned()
         {
-            self.attributes
-                .retain(|v| v.as_attribute().unwrap().borrow().local_name() != name);
-            v.clear_order();
-            v.set_parent_id(None);
+            // Every attribute of that local name goes (there may be one per prefix), and each of
+            // them stops being an attribute of this element.
+            let (removed, kept): (Vec<_>, Vec<_>) = self
+                .attributes
+                .drain(..)
+                .partition(|v| v.as_attribute().unwrap().borrow().local_name() == name);
+            self.attributes = kept;
+            for r in removed {
+                r.clear_order();
+                r.set_parent_id(None);
+            }
             Some(v)
         } else {
             None
